@@ -202,6 +202,85 @@ func C11(p *an.Prog, r *an.Report) {
 
 	// M5
 	c11Threshold(p, r)
+	// M7
+	c11OneStringReader(p, r, "C11.M7")
+}
+
+// c11OneStringReader (M7; also C01.R12, C06.G6): every key and value string the mapping reader
+// yields on a successful return comes out of the one length-prefixed string reader
+// (data.ReadI2PString). A string manufactured by the parser, or cut from the input some other way,
+// cannot be told apart when the mapping is written back, so Data() would differ from the bytes
+// read — and a signature over them would not verify after a round trip.
+func c11OneStringReader(p *an.Prog, r *an.Report, rule string) {
+	root := p.Func("data.ReadMappingValues")
+	reader := p.Func("data.ReadI2PString")
+	if root == nil || reader == nil {
+		r.Fail("%s: anchors data.ReadMappingValues / data.ReadI2PString not found", rule)
+		return
+	}
+	isStr := func(t types.Type) bool {
+		if arr, ok := t.Underlying().(*types.Array); ok {
+			t = arr.Elem()
+		}
+		_, name := an.NamedOf(t)
+		return name == "I2PString"
+	}
+	flow := an.NewFlow(p)
+	var fns []*ssa.Function
+	for f := range libClosure(p, root) {
+		if strings.HasSuffix(an.FnPkgPath(f), "/data") && f != reader && len(f.Blocks) > 0 {
+			fns = append(fns, f)
+		}
+	}
+	sort.Slice(fns, func(i, j int) bool { return an.FnKey(fns[i]) < an.FnKey(fns[j]) })
+	n := 0
+	var bad []string
+	for _, f := range fns {
+		if _, inReader := libClosure(p, reader)[f]; inReader {
+			continue // the reader's own helpers
+		}
+		res := f.Signature.Results()
+		for k := 0; k < res.Len(); k++ {
+			if !isStr(res.At(k).Type()) {
+				continue
+			}
+			for _, ret := range flow.OkReturns(f) {
+				if k >= len(ret.Results) {
+					continue
+				}
+				n++
+				sl := &an.Slicer{P: p, Root: f, Through: an.AllArgs, MaxDepth: 8,
+					StopAt: func(c ssa.CallInstruction, callee *ssa.Function) bool { return callee == reader }}
+				for _, l := range sl.Leaves(ret.Results[k]) {
+					if l.LenOnly {
+						continue
+					}
+					switch l.Kind {
+					case an.LCall:
+						if l.Name == an.FnKey(reader) {
+							continue
+						}
+					case an.LFresh:
+						continue // the container the strings are put in
+					case an.LConst:
+						if l.Name == "nil" {
+							continue
+						}
+					}
+					bad = append(bad, fmt.Sprintf("%s result %d at %s: origin %s", an.FnKey(f), k, p.Pos(ret.Pos()), l.String()))
+				}
+			}
+		}
+	}
+	r.Analysed["mapping reader string results"] = n
+	if n < 4 {
+		r.Fail("%s: only %d string-yielding returns found in the mapping reader (expected >= 4)", rule, n)
+	}
+	sort.Strings(bad)
+	if len(bad) > 8 {
+		bad = append(bad[:8], fmt.Sprintf("... and %d more", len(bad)-8))
+	}
+	r.Check(len(bad) == 0, rule, "mapping-reader/one-string-reader", p.FnPos(root), "every key/value string the mapping reader yields on success comes from data.ReadI2PString", bad...)
 }
 
 // c11SizeLimit (M3; also the justification of C14's reviewed uint16(len(payload)) narrowing):
@@ -366,6 +445,14 @@ func bufferParts(b *an.Bounds, v ssa.Value, depth int) ([]ssa.Value, string) {
 	}
 	switch x := v.(type) {
 	case *ssa.Call:
+		if callee := x.Call.StaticCallee(); callee != nil && an.FnPkgPath(callee) == "encoding/binary" && strings.HasPrefix(callee.Name(), "AppendUint") && len(x.Call.Args) == 3 {
+			// binary.BigEndian.AppendUintN(buf, v): the encoded integer is the next part
+			base, why := bufferParts(b, x.Call.Args[1], depth+1)
+			if why != "" {
+				return nil, why
+			}
+			return append(base, x.Call.Args[2]), ""
+		}
 		if !isBuiltin(x, "append") || len(x.Call.Args) != 2 {
 			return nil, "result is not built by append or copy"
 		}
@@ -731,9 +818,10 @@ func minimalPairSize(p *an.Prog) (int64, []string) {
 			// variable-length parts contribute >= 0
 		}
 	}
-	if total == 0 {
-		// not an append chain (e.g. a buffer allocated up front): the smallest length the
-		// relational engine can show for the value returned on success
+	{
+		// the smallest length the relational engine can show for the value returned on success
+		// (covers buffers allocated up front and length prefixes built in helpers); both figures
+		// are lower bounds of the true minimum, the larger one is used
 		b := an.NewBounds(p)
 		// the same domain fact the append-chain form relies on: NewIntegerFromInt(_, k) yields a
 		// k-byte Integer
@@ -761,7 +849,7 @@ func minimalPairSize(p *an.Prog) (int64, []string) {
 				lo = l
 			}
 		}
-		if lo != an.PosInf && lo > 0 {
+		if lo != an.PosInf && lo > total {
 			return lo, []string{fmt.Sprintf("writer minimum: len(result) >= %d on every successful return of %s (relational bound)", lo, w.Name())}
 		}
 	}
